@@ -37,15 +37,8 @@ def handler_publish(f):
 
 
 def ret_value_on_path(body, path):
-    val = None
-    for bb in path:
-        for s in body.blocks[bb]["stmts"]:
-            if s["k"] == "assign" and s["dst"]["l"] == 0 and not s["dst"]["proj"]:
-                val = body.rvalue_term(s["rv"])
-        c = body.calls.get(bb)
-        if c is not None and c.dst["l"] == 0 and not c.dst["proj"]:
-            val = body.call_term(bb)
-    return val
+    from .. import paths as _paths
+    return _paths.value_on_path(body, path, 0)
 
 
 def is_ok(v, payload=None):
